@@ -25,8 +25,9 @@
     * real code = reference: the real CBOR / MessagePack / UBJSON / BSON decoders against the reference decoders written in Lean from the
       specifications (JV.Spec.Cbor, JV.Spec.BinFormats) on reference encodings in every legal width and form, mutations, every strict
       prefix, every 1–2 (thorough: sampled 3) byte string. The MessagePack, UBJSON and BSON decoders themselves are not modelled.
-  NOT proved: that the model never runs out of fuel with `decode`'s fuel 2·|input|+2 (`Fail.fuel` would print `fuel`, which never
-  equals a real outcome: the tie observes it does not happen); the float32→double widening is taken as the IEEE function f32ToF64.
+  Fuel adequacy IS proved (JV.Proofs.CborParserFuel, stated in Props.C05.cbor_fuel_suffices): with `decode`'s fuel 2·|input|+2 the
+  model never answers `Fail.fuel`, because every item read consumes at least one byte.
+  NOT proved: the float32→double widening is taken as the IEEE function f32ToF64.
 -/
 import JV.Spec.Cbor
 import JV.Spec.BinFormats
